@@ -285,6 +285,9 @@ def is_mode_atom(t: ast.AST, pol: bool, names=None) -> bool:
     na = none_atom(t, True)
     if na:
         subj = na[0]
+    elif isinstance(t, ast.Compare) and len(t.ops) == 1 and isinstance(t.ops[0], (ast.In, ast.NotIn)) and \
+            isinstance(t.left, ast.Constant) and t.left.value is None and isinstance(t.comparators[0], (ast.Tuple, ast.List)):
+        subj = t.comparators[0]                 # `None not in (start, end)`
     else:
         for p in ("type($x) is $t", "type($x) is not $t", "type($x) == $t", "type($x) != $t", "type($x) in $t",
                   "type($x) not in $t", "isinstance($x, $t)"):
@@ -324,6 +327,16 @@ class G:
 def helper_of(prog, f: Func, call: ast.Call) -> Optional[Func]:
     """same-class helper called as K.__h(..) / self.__h(..) / cls.__h(..) / self.h(..)"""
     fn = call.func
+    if isinstance(fn, ast.Name) and fn.id not in prog.classes:
+        # module-level function of the same module, called by its bare name
+        m = prog.module_func(f.module.name, fn.id)
+        return m if m is not None and m.qual != f.qual and m.kind == 'function' else None
+    if isinstance(fn, ast.Attribute) and isinstance(fn.value, ast.Call) and isinstance(fn.value.func, ast.Name) \
+            and fn.value.func.id == 'super' and not fn.value.args and f.cls:
+        for c in prog.mro(f.cls)[1:]:
+            if unmangle(fn.attr) in c.methods:
+                return c.methods[unmangle(fn.attr)]
+        return None
     if not (isinstance(fn, ast.Attribute) and isinstance(fn.value, ast.Name) and f.cls):
         return None
     recv = fn.value.id
@@ -390,9 +403,9 @@ def guard_facts(prog, typer, f: Func, depth: int = 0) -> List[G]:
             params = list(h.params)
             if h.kind == 'method':
                 params = params[1:]
-            if c.keywords or any(isinstance(a, ast.Starred) for a in c.args) or len(c.args) > len(params):
+            if any(k.arg is None for k in c.keywords) or any(isinstance(a, ast.Starred) for a in c.args) or len(c.args) > len(params):
                 continue
-            sub = {p: ex.expand(a, cn) for p, a in zip(params, c.args)}
+            sub = {p: ex.expand(a, cn) for p, a in zip(params, facts.bound_args(c, h, drop_self=(h.kind == 'method'))) if a is not None}
             outer = path_clauses(prog, f, c, typer, drop_raising=True)
             outer_b = [(fo.target, ex.expand(fo.iter, cfg.node_of(fo))) for fo in fors_around(f, c)]
             for hg in guard_facts(prog, typer, h, depth + 1):
@@ -401,8 +414,12 @@ def guard_facts(prog, typer, f: Func, depth: int = 0) -> List[G]:
                 g = G(hg.exc, outer + cl, outer_b + bs, hg.func, hg.raise_node, c, via=c)
                 g.dom = cn
                 out.append(g)
-    # any(.. for x in X) / len([x for x in X if ..]) > 0 as a universally bound raise
+    # any(.. for x in X) / len([x for x in X if ..]) > 0 as a universally bound raise; likewise `not all(P for x in X)`,
+    # `min(X) < k` / `max(X) > k` and `set(X) - set(range(..))` (each says "some element of X ...")
     for g in out:
+        if getattr(g, '_quantified', False):
+            continue
+        g._quantified = True
         new = []
         for cl in g.clauses:
             if len(cl) == 1 and cl[0][1]:
@@ -413,9 +430,72 @@ def guard_facts(prog, typer, f: Func, depth: int = 0) -> List[G]:
                     for c in conds:
                         new += cnf(c, True)
                     continue
+            if len(cl) == 1:
+                a, pol = cl[0]
+                while isinstance(a, ast.UnaryOp) and isinstance(a.op, ast.Not):
+                    a, pol = a.operand, not pol
+                m = match("all($c)", a)
+                if m and not pol and isinstance(m['c'], (ast.GeneratorExp, ast.ListComp)) and len(m['c'].generators) == 1:
+                    gen = m['c'].generators[0]
+                    g.binders.append((gen.target, gen.iter))
+                    for c in gen.ifs:
+                        new += cnf(c, True)
+                    new += cnf(m['c'].elt, False)
+                    continue
+            ex_atoms = [_some_element(a, pol, len(g.binders)) for a, pol in cl]
+            if ex_atoms and all(x is not None for x in ex_atoms) and all(same(x[1], ex_atoms[0][1]) for x in ex_atoms):
+                var = ex_atoms[0][0]
+                g.binders.append((ast.Name(id=var, ctx=ast.Store()), ex_atoms[0][1]))
+                new.append([(x[2], True) for x in ex_atoms])
+                continue
             new.append(cl)
-        g.clauses = new
+        # "the collection is not empty" next to a statement about one of its elements adds nothing
+        def emptiness(cl):
+            if len(cl) != 1 or not cl[0][1]:
+                return False
+            a = cl[0][0]
+            m = match("len($x) > 0", a) or match("len($x) != 0", a) or match("len($x) >= 1", a)
+            x = m['x'] if m else a
+            for _, it in g.binders:
+                cands = [it]
+                for pat in ("$d.values()", "$d.keys()", "$d.items()", "list($d)", "set($d)", "sorted($d)", "list($d.keys())", "list($d.values())"):
+                    mm = match(pat, it)
+                    if mm:
+                        cands.append(mm['d'])
+                if any(same(x, c) for c in cands):
+                    return True
+            return False
+        g.clauses = [cl for cl in new if not emptiness(cl)]
     return out
+
+
+def _some_element(a: ast.AST, pol: bool, n: int):
+    """atom that says "some element of X satisfies C":  min(X) < k, max(X) > k, set(X) - set(R) (truthy),
+    not set(X) <= set(R), not set(X).issubset(R)   ->  (variable name, X, C over that variable)"""
+    var = f"_el{n}"
+    c = compare_atom(a, pol)
+    if c is not None:
+        l, op, r = c
+        for (x, o, k) in ((l, op, r), (r, _FLIP[op], l)):
+            m = match("min($X)", x)
+            if m and o in ('<', '<=') and facts.const_num(k) is not None:
+                return var, m['X'], ast.parse(f"{var} {o} {src(k)}", mode='eval').body
+            m = match("max($X)", x)
+            if m and o in ('>', '>=') and facts.const_num(k) is not None:
+                return var, m['X'], ast.parse(f"{var} {o} {src(k)}", mode='eval').body
+    t, p = a, pol
+    while isinstance(t, ast.UnaryOp) and isinstance(t.op, ast.Not):
+        t, p = t.operand, not p
+    if p:
+        m = match("set($X) - $R", t) or match("set($X).difference($R)", t)
+    else:
+        m = match("set($X) <= $R", t) or match("set($X).issubset($R)", t)
+    if m:
+        R = m['R']
+        mr = match("set($r)", R) or match("frozenset($r)", R)
+        R = mr['r'] if mr else R
+        return var, m['X'], ast.parse(f"{var} not in {src(R)}", mode='eval').body
+    return None
 
 
 # ---------------------------------------------------------------------------------------------------- dict-valued terms
